@@ -129,6 +129,20 @@ CHECKS["C17"] = dict(
     "language + SMT lexer lemmas (names, numbers, spin vs lineshape tags, keywords, line ends); CrossHair-driven runs of expand_lines and read_ampgen",
     design="§2 C17", engine="smt+crosshair")
 
+CHECKS["C18"] = dict(
+    text=LEVEL_TEXT_A + ". The permutation harness keeps the particle type of every leaf and event-type position symbolic (all multiplicity "
+         "patterns over 3 types) for every binary tree shape with up to 4 leaves: soundness, no duplicates and completeness of "
+         "list_structure are decided by z3 on every path. The emit harness reads the generated C++ and Python code back for 12 spin "
+         "structures x topologies x lineshape kinds x event-type orderings." + ENUM,
+    note=NOTE_A, technique="CrossHair symbolic execution of ModelDecay.list_structure with symbolic particle types; solver-driven runs of "
+    "the real code generators with the generated text parsed back", design="§2 C18", engine="crosshair")
+CHECKS["C19"] = dict(
+    text=LEVEL_TEXT_A + ". Restricted claim: function calls only (not the command-line entry point). 72 generated files + the shipped model, "
+         "four conversions each: returned text = printed text, cross-language equality of all declarations and amplitudes, "
+         "declared-before-use, Python output executed against a stand-in goofit module." + ENUM,
+    note=NOTE_A, technique="CrossHair-driven runs of ampgen2goofit / ampgen2goofitpy on a generated family; outputs parsed back, compared "
+    "across languages, compiled and executed", design="§2 C19", engine="crosshair")
+
 PENDING_REASON = "check not built yet in this session (planned, see DESIGN.md §2); not claimed until its quick command runs clean"
 NA = {
     "C20": "quantifies over process histories, interpreter starts and PYTHONHASHSEED values of code that must run untraced "
